@@ -58,7 +58,9 @@ def run(tier, rep):
                 bigpool.append(bp)
     bigpool.append(bytes([0x7D, 0x00]) + bytes(rnd.randrange(256) for _ in range(1021)))
     bigpool.append(bytes([0x7D, 0x10]) + bytes(rnd.randrange(256) for _ in range(998)))
-    msmpool = [pl for _, shape, pl, enc in msm_corpus.build_all(bundle, "c17", True) if shape in ("manysat", "dense", "random") and enc.ints.get("NCell", 0) > 0 and len(pl) < 500]
+    msm_all = msm_corpus.build_all(bundle, "c17", True)
+    msmpool = [pl for _, shape, pl, enc in msm_all if shape in ("manysat", "dense", "random") and enc.ints.get("NCell", 0) > 0 and len(pl) < 500]
+    edgepool = [pl for _, shape, pl, enc in msm_all if shape in ("lastslots", "emptycell", "emptysig", "lastcell")]   # satellite 64 / signal 32, no cells
     tr = fe.Traces(rep)
     corp = de.Corpus(rep, bundle)
     combos = [(v, p, q) for v in (0, 1) for p in (True, False) for q in (0, 1, 2)]
@@ -71,12 +73,36 @@ def run(tier, rep):
             pl = rnd.choice(msmpool) if x < 0.3 else rnd.choice(bigpool) if x < 0.45 else rnd.choice(pool)
             if r < 0.5:
                 items.append(("frame", frame_of(pl), pl))
+                mid_ = (pl[0] << 4) | (pl[1] >> 4) if len(pl) >= 6 else -1
+                if rnd.random() < 0.35 and (mid_ in (1005, 1006) or (mid_ >= 0 and str(mid_) not in bundle["defs"] and mid_ != 4076)):
+                    # a later copy whose PAYLOAD is altered while the checksum bytes stay (fixed-layout or
+                    # unknown types only, so that it still decodes): with validation off it is delivered
+                    # and must be decoded as ITS OWN payload, not as the earlier frame's
+                    fr2 = bytearray(frame_of(pl))
+                    fr2[3 + rnd.randrange(3, len(pl))] ^= 1 << rnd.randrange(8)
+                    items.append(("badcrc", bytes(fr2), bytes(fr2[3:-3])))
             elif r < 0.75:
                 items.append(("badcrc", wrong_crc(rnd, frame_of(pl)), pl))
             elif r < 0.85:
                 items.append(("nmea", rnd.choice(gen_streams.NMEA_OK), None))
             else:
                 items.append(("ubx", gen_streams.ubx(rnd), None))
+        # in every stream: an MSM frame at the edge of the masks (satellite ID 64 and signal ID 32 set / no cells)
+        e1 = edgepool[(s * 7) % len(edgepool)]
+        items.insert(rnd.randrange(len(items) + 1), ("frame", frame_of(e1), e1))
+        # in every stream: two LARGE frames (> 300 and >= 1000 payload bytes), one of them with a wrong checksum
+        b1, b2 = bigpool[s % len(bigpool)], bigpool[-1 - (s % 2)]
+        items.insert(rnd.randrange(len(items) + 1), ("frame" if s % 2 else "badcrc", frame_of(b1) if s % 2 else wrong_crc(rnd, frame_of(b1)), b1))
+        items.insert(rnd.randrange(len(items) + 1), ("badcrc" if s % 2 else "frame", wrong_crc(rnd, frame_of(b2)) if s % 2 else frame_of(b2), b2))
+        # in every stream: a frame and, later, a copy whose PAYLOAD is altered while the checksum bytes
+        # stay (fixed-layout 1005 / an unknown type, so that the copy still decodes)
+        p5, _ = gen_messages.build("1005", bundle, rnd, values="random")
+        base_pl = p5 if (p5 and s % 2 == 0) else bytes([0x7D, 0x20 | rnd.randrange(16)]) + bytes(rnd.randrange(256) for _ in range(rnd.randint(8, 40)))
+        fr2 = bytearray(frame_of(base_pl))
+        fr2[3 + rnd.randrange(3, len(base_pl))] ^= 1 << rnd.randrange(8)
+        at = rnd.randrange(len(items) + 1)
+        items.insert(at, ("frame", frame_of(base_pl), base_pl))
+        items.insert(rnd.randrange(at + 1, len(items) + 1), ("badcrc", bytes(fr2), bytes(fr2[3:-3])))
         data = b"".join(i[1] for i in items)
         g = {}
         for ci, (v, p, q) in enumerate(combos):
@@ -114,10 +140,12 @@ def run(tier, rep):
                 rep.reject("ParsedOffNoObject", facts, tr.replay_of(tid, verdicts[tid]))
             if p:
                 njudged = 0
+                wrongcrc = {i[1] for i in items if i[0] == "badcrc"}
                 for raw, msg in tr.results[tid]:
-                    # every MSM object (labels depend on the option) and a few others
+                    # every MSM object (labels depend on the option), every object of a wrong-checksum
+                    # frame (validation off: it must be the decode of ITS payload) and a few others
                     ismsm = msg is not None and str(msg.identity)[:3] in ("107", "108", "109", "110", "111", "112", "113")
-                    if msg is not None and (ismsm or njudged < (2 if quick else 8)):
+                    if msg is not None and (ismsm or bytes(raw) in wrongcrc or njudged < (2 if quick else 8)):
                         njudged += 1
                         corp.add_message(raw[3:-3], msg, m["labelmsm_"], lbl=True, ident="slice", kind=f"v{v}")
     # readers with different options ALIVE AT THE SAME TIME over copies of one stream, drained
